@@ -192,17 +192,18 @@ CHECKS["C06"] = dict(
 )
 CHECKS["C07"] = dict(
     engine="pegir+pyvc", category="proof",
-    text="Flag protocol of the three macro forms (each alternative that sets a raw-capture flag ends in the builder that clears it; flags written "
-         "nowhere else), Tokenizer.peek hands control to the capture routine exactly when its flag is set and appends its result unfiltered unless blank "
-         "(E1), is_blank keeps WS tokens while _proc_macro is set (E1), the grammar passes MACRO_PARAM token strings unchanged to macro_call / "
-         "handle_with_macro_stmt, which put `.string` into the Constant as is. ~900 macro uses vs an independent bracket/string-aware splitter is the "
-         "bounded stand-in.",
+    text="Tokenizer.consume_macro_params (the call-macro raw-capture loop) is verified from its real body (282 VCs, z3): the text it returns is the "
+         "concatenation, in order, of every raw token pulled before the delimiter (loop invariant over the ghost token stream), spans first.start..last.end, "
+         "the delimiter is a real `,`/`)` operator token, `)` is handed back and ends raw capture; Tokenizer.peek routes to the capture routine exactly when "
+         "its flag is set and appends the result unfiltered; is_blank keeps WS tokens under _proc_macro; flag protocol and routing of MACRO_PARAM "
+         "strings into macro_call / handle_with_macro_stmt on the parser IR. ~950 macro uses vs an independent bracket/string-aware splitter are the "
+         "bounded stand-in (bracket protection of commas and the with-macro capture are covered only there).",
     design_ref="DESIGN.md 5/C07",
-    note="ASSUMED contracts (bodies not verified): Tokenizer.consume_macro_params / consume_with_macro_params (raw-capture loops over the token "
-         "generator) - their fidelity is checked by the stand-in only; textwrap.dedent external.",
-    technique="protocol/routing contracts on the parser IR + E1 contracts on peek/is_blank (z3); raw-capture loops bounded only",
+    note="ASSUMED: contract of Tokenizer.consume_with_macro_params (body not verified); four ghost preconditions of consume_macro_params that its "
+         "call site in peek() cannot establish (stream not exhausted while the flag is set, empty push-back stack, non-empty operator lexemes, ordered "
+         "token positions) - listed in the evidence; textwrap.dedent external.",
+    technique="E1 loop invariants/postconditions on the real raw-capture loop (z3) + protocol/routing contracts on the parser IR; with-macro capture bounded only",
 )
-
 CHECKS["C10"] = dict(
     engine="gramref+pegir+pyvc", category="proof",
     text="The seven f-string grammar rules are proved to have CPython 3.12's alternatives in order (refinement against a transcription of the 3.12 "
